@@ -8,6 +8,7 @@ from common import write_shards, summary
 seed, N, outdir, prefix = int(sys.argv[1]), int(sys.argv[2]), sys.argv[3], sys.argv[4]
 REPO = os.environ.get('NIMA_REPO', '/repo')
 from nix_manipulator import parse
+from nix_manipulator.parser import parse_to_ast
 from nix_manipulator.cli.manipulations import set_value, remove_value
 R = random.Random(seed)
 def q(s): return '"' + s.replace('"', '""') + '"'
@@ -15,7 +16,7 @@ def q(s): return '"' + s.replace('"', '""') + '"'
 CANON = ['{\n  a = 1;\n}\n', '{ a = 1; }\n', '{ pkgs }:\n{\n  a = 1;\n  b = {\n    c = "x";\n  };\n}\n', 'let\n  v = 1;\nin\n{\n  a = v;\n}\n',
          '# header\n{\n  a = [\n    1\n    2\n  ];\n  # note\n  b.c = true;\n}\n', '{ }\n', '{\n  a = 1;\n}', '{ a = 1; }', '{\n  a = 1;\n}\n\n']
 NONCANON = ['\ufeff{ a = 1; }\n', '\ufeff{\n  a = 1;\n}\n', '{ a = 1; }\r\n', '{\r\n  a = 1;\r\n}\r\n', '{ a = "é→"; }\n', '{a=1;}', '{ a   =  1 ; }\n', '{\n\ta = 1;\n}\n', '\n{ a = 1; }\n', '{ a = 1; }   ', '{\n  a = 1;\n\n\n  b = 2;\n}\n', '[ 1 2 ]\n', 'x: x\n', '1\n']
-BROKEN = ['{ a = 1;', '{ a = ; }\n', '{ a = 1; }}\n', 'let in', '{ a = 1 }\n', ')(', '{ a = "x; }\n', '\n\n{ a = 1; \n', '  { a = [ 1; }  \n', '']
+BROKEN = ['{ a = 1 }', '{\n  a = 1;\n  b = 2\n}\n', '{ a = [ 1 2; }', 'a.${b', '{ a, , b }: { a = 1; }\n', '{ a = 1;', '{ a = ; }\n', '{ a = 1; }}\n', 'let in', '{ a = 1 }\n', ')(', '{ a = "x; }\n', '\n\n{ a = 1; \n', '  { a = [ 1; }  \n', '']
 PATHS = ['a', 'b', 'b.c', 'z', 'a.b', '"a"', 'a..b', '', '@v', '@w', '@@v', '"q', 'x.y.z', 'é', '"é"']
 VALUES = ['2', '"s"', '[ 1 2 ]', '{ k = 1; }', '1 +', '', '1 2', 'x: x', '# c', '"é"']
 def text():
@@ -72,11 +73,13 @@ for c, (o1, o2) in zip(cases, obs):
         known['F-28'] = known.get('F-28', 0) + 1      # listed finding: -f FILE reads with universal newlines, stdin does not
     elif o1[:2] != o2[:2]: what = 'stdin and -f FILE give different results: %r vs %r' % (o1[:2], o2[:2])
     elif c['cmd'] == 'test':
-        good = exc is None and not lib['err'] and lib['rebuild'] == c['text']
+        ts_err = parse_to_ast(c['text']).has_error          # "free of syntax errors" is tree-sitter's verdict (ERROR and MISSING nodes), not the library's flag
+        good = exc is None and not ts_err and not lib['err'] and lib['rebuild'] == c['text']
         if (outs, rc) != (('OK\n', 0) if good else ('Fail\n', 1)): what = 'test printed %r status %d, expected %s' % (outs, rc, 'OK/0' if good else 'Fail/1')
     elif c['cmd'] in ('set', 'rm'):
         r = lib[c['cmd']]
-        if r is None:
+        if parse_to_ast(c['text']).has_error and (outs != '' or rc == 0): what = 'input has a syntax error but the CLI wrote %r with status %d' % (outs[:80], rc)
+        elif r is None:
             if outs != '' or rc == 0: what = 'library refused the edit but the CLI wrote %r with status %d' % (outs[:80], rc)
         else:
             want = r if r.endswith('\n') else r + '\n'
